@@ -45,8 +45,9 @@ META = {
             'maxiter 0..4, rebalance_iters 0..3, tiebreaking on/off',
     'search_only': ['balanced Lloyd: np.random.permutation and the np.argsort results inside _rebalance are replayed, not '
                     'modelled; termination of bellman_ford_balanced within n*n sweeps is not proved (the model reports the '
-                    'RuntimeError); maxiter = 0 together with a rebalance round is not called (reads uninitialised work '
-                    'arrays in the unchanged code: reported finding) and complex strength values are outside the model',
+                    'RuntimeError); maxiter = 0 together with a rebalance round is not called (it read uninitialised work '
+                    'arrays before the repair 4c0adfe, which skips the rebalancing; the generator still leaves it out) and complex '
+                    'strength values are outside the model',
                     'Lloyd: np.random.permutation itself is replayed, not modelled; complex strength values and measure=inv '
                     'with a stored zero (1/0 = inf) are outside the model (judged by the specification checker only)',
                     'pairwise wrapper: strength matrices and Galerkin products between matchings are not modelled; every kernel '
@@ -56,8 +57,9 @@ META = {
                     'symmetric pattern) and real matrices with negative entries through standard, naive, pairwise (norm=abs for '
                     'complex), Lloyd, lloyd_cluster, balanced Lloyd x all five measures, CSR / CSC: specification checkers only '
                     '(reachability by BFS on the pattern; a ValueError is accepted only when the documented edge length is negative / '
-                    'non-positive / the graph is disconnected); NOT generated because the unchanged code fails there (reported): '
-                    'complex C with lloyd_aggregation(measure=None or min) and with balanced_lloyd_aggregation (any measure)'],
+                    'non-positive / the graph is disconnected); complex C with lloyd_aggregation(measure=None or min) and with '
+                    'balanced_lloyd_aggregation (any measure) is generated since the repair 30b9508 (strided real part read as '
+                    'contiguous memory; balanced Lloyd ignoring the measure)'],
     'partial': [],
     'assumptions': ['Lloyd theorems (lloyd_cluster_spec, lloyd_aggregation_spec): symmetric sparsity pattern, column indices in '
                     'range, weights non-negative after the measure, distinct initial centres, maxiter >= 1; Lloyd exact comparison: '
@@ -1370,7 +1372,8 @@ def run(ctx):
         part_b(ctx, list(graph_stream(ctx, 4, 200, 30)))
         part_c(ctx, list(graph_stream(ctx, 4, 300, 40)))     # after a, b: leaves the random streams of parts a, b unchanged
         part_d(ctx, list(graph_stream(ctx, 4, 300, 30)))
-        part_v(ctx, list(graph_stream(ctx, 4, 200, 30)))     # part v (values) last: the random streams of the parts above are unchanged
+        part_v(ctx, list(graph_stream(ctx, 4, 200, 30)))     # part v (values): the random streams of the parts above are unchanged
+        part_z(ctx, True)                                    # E56 parts (wrapper model, ...) last, for the same reason
     else:
         part_a(ctx, list(graph_stream(ctx, 6, 5000, 60)))
         part_e(ctx, list(graph_stream(ctx, 5, 4000, 40)))
@@ -1378,6 +1381,18 @@ def run(ctx):
         part_c(ctx, list(graph_stream(ctx, 5, 5000, 60)))
         part_d(ctx, list(graph_stream(ctx, 5, 4000, 50)))
         part_v(ctx, list(graph_stream(ctx, 5, 2500, 50)))
+        part_z(ctx, False)
+
+
+def part_z(ctx, quick, deep=False):
+    """extension E56: the pairwise WRAPPER vs the composed Lean model (harness/c12z_wrap.py)"""
+    from c12z_wrap import part_w
+    if deep:
+        part_w(ctx, list(graph_stream(ctx, 4, 1500, 30)))
+    elif quick:
+        part_w(ctx, list(graph_stream(ctx, 3, 70, 14)))
+    else:
+        part_w(ctx, list(graph_stream(ctx, 4, 3000, 40)))
 
 
 def search(ctx):
@@ -1386,6 +1401,7 @@ def search(ctx):
     part_c(ctx, list(graph_stream(ctx, 5, 1500, 40)))
     part_d(ctx, list(graph_stream(ctx, 5, 1500, 40)))
     part_v(ctx, list(graph_stream(ctx, 5, 1500, 40)))
+    part_z(ctx, False, deep=True)
 
 
 def replay_bal(ctx, c):
@@ -1516,6 +1532,12 @@ def replay(ctx, data):
         k = amg_core.pairwise_aggregation(n, ap, aj, ax, x, y)
         print('replaying pairwise kernel: x =', x.tolist(), 'y =', y[:k].tolist(), 'k =', k)
         compare_pairwise_calls(ctx, [(n, ap, aj, ax, x, y, int(k), 'raw')])
+        for v in ctx.violations[:5]:
+            print('  ', v['what'])
+        return
+    if c.get('routine') == 'pairwise_wrapper':
+        from c12z_wrap import replay_w
+        replay_w(ctx, c)
         for v in ctx.violations[:5]:
             print('  ', v['what'])
         return
